@@ -146,7 +146,7 @@ def _rebound_owned_before(fn_node, name, use, bindings) -> bool:
 
 def run(repo: Repo) -> Result:
     res = Result(PID)
-    res.rules = ["C17-MEMO", "C17-INPUT", "C17-AST", "C17-MODULE", "C17-FRESH"]
+    res.rules = ["C17-MEMO", "C17-INPUT", "C17-AST", "C17-MODULE", "C17-FRESH", "C17-MEMOKEY"]
     res.explanation = "who-may rules over the closed list of state channels: memo sites, input mutation, AST mutation, module/class containers, per-render context creation"
     res.assumptions = [
         "aliasing is tracked intra-procedurally; containers built locally are owned",
@@ -373,6 +373,13 @@ def run(repo: Repo) -> Result:
         if len(ctor) != 1 or "dict(*args, **kwargs)" not in text(ctor[0]):
             res.add("C17-FRESH", f.qual, "context", f"{f.qual} must build a new context from dict(*args, **kwargs) on every call", f.file, f.line)
     res.stats.update(memo_sites=n_memo, functions_checked_for_input_mutation=n_funcs, parse_tree_classes=len(ast_classes), module_level_containers=n_glob)
+    # ---- C17-MEMOKEY ------------------------------------------------------------------------
+    # The caching loaders memoise `load(name, namespace)`.  A key that loses a component for some
+    # inputs (a falsy namespace value, a missing name) makes two different requests share a slot:
+    # what a `render`/`include` of that partial outputs then depends on which request came first.
+    from .c23 import check_namespace_key
+
+    check_namespace_key(repo, res, "C17-MEMOKEY")
     return res
 
 
